@@ -11,8 +11,9 @@ Fixpoint lookup (n : Z) (ks : keys) : option keyconf :=
   | (m, kc) :: r => if m =? n then Some kc else lookup n r
   end.
 
-Definition E_NOKEY := 1. Definition E_DANGLING := 2. Definition E_NOTOKEN := 3.
-(* config.GetKey: one alias hop, then the entry must name a token; returns (resolved name, entry) *)
+Definition E_NOKEY := 1. Definition E_DANGLING := 2. Definition E_NOTOKEN := 3. Definition E_ALIAS_OF_ALIAS := 7.
+(* config.GetKey: one alias hop — the entry reached must not itself be an alias (getkey_alias_of_alias; relic 1867fd2) —
+   then the entry must name a token; returns (resolved name, entry) *)
 Definition get_key (ks : keys) (n : Z) : result (Z * keyconf) :=
   match lookup n ks with
   | None => if getkey_missing false then Err E_NOKEY else Panic 0
@@ -21,7 +22,9 @@ Definition get_key (ks : keys) (n : Z) : result (Z * keyconf) :=
       let r := if getkey_follow_alias (negb (k_alias kc =? 0)) then
                  match lookup (k_alias kc) ks with
                  | None => if getkey_alias_dangling false then Err E_DANGLING else Panic 0
-                 | Some kc' => if getkey_alias_dangling true then Err E_DANGLING else Ok (k_alias kc, kc')
+                 | Some kc' => if getkey_alias_dangling true then Err E_DANGLING
+                               else if getkey_alias_of_alias (negb (k_alias kc' =? 0)) (k_token kc' =? 0) then Err E_ALIAS_OF_ALIAS
+                               else Ok (k_alias kc, kc')
                  end
                else Ok (n, kc) in
       match r with
@@ -145,12 +148,15 @@ Definition handle (cf : config) (rq : request) : outcome :=
   dispatch cf (snd (identity cf rq)) rq.
 
 (* ------------------------------------------------------------------ specification vocabulary *)
-(* the key a name resolves to, following one alias *)
+(* the key a name resolves to, following one alias; an alias that names another alias is a malformed entry *)
 Definition resolve1 (ks : keys) (n : Z) : option (Z * keyconf) :=
   match lookup n ks with
   | None => None
   | Some kc => if k_alias kc =? 0 then Some (n, kc)
-               else match lookup (k_alias kc) ks with Some kc' => Some (k_alias kc, kc') | None => None end
+               else match lookup (k_alias kc) ks with
+                    | Some kc' => if k_alias kc' =? 0 then Some (k_alias kc, kc') else None
+                    | None => None
+                    end
   end.
 Definition entitled (ks : keys) (u : user) (n : Z) : Prop :=
   exists rn kc, resolve1 ks n = Some (rn, kc) /\ k_token kc <> 0 /\ allowed u rn kc = true.
